@@ -137,8 +137,16 @@ func newPkg(pkg *packages.Package, u *Universe) Package {
 				p.funcs[x.Name()] = x
 			}
 		case *types.TypeName:
+			if x.Parent() != pkg.Types.Scope() {
+				// function-local type or type parameter, not a member of the package
+				continue
+			}
 			p.types[x.Name()] = x
 		case *types.Const:
+			if x.Parent() != pkg.Types.Scope() {
+				// function-local constant
+				continue
+			}
 			p.constants[x.Name()] = x
 		}
 	}
